@@ -261,6 +261,102 @@ def task(unit):
     return st
 
 
+def registry_task(unit):
+    """the opt-in converter registry is the only sanctioned extension point: a converter runs only while it is registered,
+    whichever class or instance it was registered / unregistered through"""
+    from Pyro5 import serializers, api
+    install_audit()
+    st = Stats()
+    enc = encoders()
+    calls = []
+
+    def conv(classname, d):
+        calls.append(classname)
+        return ("converted", classname)
+    handles = {"base": serializers.SerializerBase, "api": None}
+    for n, ser in serializers.serializers.items():
+        handles["class:" + n] = type(ser)
+        handles["inst:" + n] = ser
+    tag = "vf.registry.Probe"
+    node = {"__class__": tag, "x": 1}
+    seen = set()
+
+    def V(fp, what):
+        fp = "C04|" + fp
+        if fp not in seen:
+            seen.add(fp)
+            st.violations.append({"fingerprint": fp, "what": what, "replay": {"registry": True}})
+
+    def reg(h):
+        if h == "api":
+            api.register_dict_to_class(tag, conv)
+        else:
+            handles[h].register_dict_to_class(tag, conv)
+
+    def unreg(h):
+        if h == "api":
+            api.unregister_dict_to_class(tag)
+        else:
+            handles[h].unregister_dict_to_class(tag)
+
+    def decode_all(expect_converter, where):
+        for sname in sorted(serializers.serializers):
+            ser = serializers.serializers[sname]
+            for path in (0, 1):
+                del calls[:]
+                try:
+                    val = ser.loads(enc[sname][0](node)) if path == 0 else ser.loadsCall(enc[sname][1](node))
+                    res = "ok"
+                except Exception as x:
+                    res = type(x).__name__
+                st.executions += 1
+                st.points += 1
+                if expect_converter and not calls:
+                    V("registered-converter-not-used|%s" % where[0], "%s: %s/%s gave %s without calling the registered converter" % (where, sname, path, res))
+                if not expect_converter and (calls or res == "ok"):
+                    V("converter-runs-although-not-registered|%s->%s" % (where[0].split(":")[0], where[1].split(":")[0]), "%s: %s/%s gave %s, converter calls %r" % (where, sname, path, res, calls))
+    hs = sorted(handles)
+    decode_all(False, ("never", "never"))
+    for r in hs:
+        for u in hs:
+            reg(r)
+            decode_all(True, (r, "-"))
+            unreg(u)
+            decode_all(False, (r, u))
+            st.states.add((r, u))
+            # leave no residue for the next combination
+            for h in hs:
+                unreg(h)
+            st.outcomes["reg:%s" % r.split(":")[0]] = st.outcomes.get("reg:%s" % r.split(":")[0], 0) + 1
+    # msgpack extension types: only the four documented codes may produce values
+    import msgpack
+    ok_types = allowed_types()
+    ser = serializers.serializers["msgpack"]
+    import struct as _struct
+    exts = [(-1, _struct.pack("!L", 1)), (-1, _struct.pack("!Q", 1 << 34)), (-1, b"\0" * 12), (0x30, _struct.pack("dd", 1.0, 2.0)), (0x30, b"x"), (0x31, b"123"), (0x31, b"__import__('os')"),
+            (0x32, _struct.pack("d", 0.0)), (0x33, _struct.pack("l", 1)), (0x34, b"x"), (0, b""), (127, b"abc"), (-128, b"abc"), (5, b"x" * 16)]
+    def raw_ext(code, data):      # ext 8 format; built by hand because the library refuses to *pack* reserved (negative) codes
+        return b"\xc7" + bytes([len(data)]) + _struct.pack("b", code) + data
+    for code, data in exts:
+        for wname, wrapper in (("bare", lambda r: r), ("list", lambda r: b"\x91" + r), ("dict", lambda r: b"\x81\xa1k" + r)):
+            body = wrapper(raw_ext(code, data))
+            for path in (0, 1):
+                try:
+                    raw = body if path == 0 else (b"\x94" + msgpack.packb("o") + msgpack.packb("m") + b"\x91" + body + msgpack.packb({}))
+                    val = ser.loads(raw) if path == 0 else ser.loadsCall(raw)
+                    res = ("ok", val)
+                except Exception as x:
+                    res = ("exc", x)
+                st.executions += 1
+                if res[0] == "ok":
+                    ft = foreign_types(res[1], ok_types)
+                    if ft:
+                        V("foreign-type-built|msgpack-ext-%d|%s" % (code, sorted(ft)[0]), "msgpack extension code %d decodes to %r" % (code, sorted(ft)))
+                st.outcomes["ext%d:%s" % (code, res[0])] = st.outcomes.get("ext%d:%s" % (code, res[0]), 0) + 1
+    st.samples.append({"registry_handles": hs, "msgpack_ext_codes": sorted({c for c, _ in exts})})
+    return st
+
+
 def chunks(lst, n):
     for i in range(0, len(lst), n):
         yield lst[i:i + n]
@@ -272,18 +368,23 @@ def run(ctx):
     units = [(c, ctx.quick) for c in chunks(tags, 6 if ctx.quick else 4)]
     for st in ctx.pmap(task, units):
         total.merge(st)
+    total.merge(registry_task(None))
     cov = coverage_from_stats(
         total,
         rule="class-tagged dicts with tag from %d strings (every builtins name bare/builtins./exceptions. prefixed, every attribute of Pyro5.errors incl. imported modules, Pyro "
              "internals, struct.*, every public sqlite3 name, os/subprocess/importlib, a harness-local class, dunder and degenerate tags) x __exception__ {absent,True,"
              "False,1} x %d member variants (hostile attributes, wrong shapes, nested tagged dicts, proxy/uri states) x %d wrappers x 4 codecs (payload built with the raw "
              "codec) x {loads, loadsCall}; oracle: closed-world type set from the property text, foreign/dunder tags must raise, audit hook (import/exec/open/socket/"
-             "subprocess/os.*) silent, canary constructor never called; distinct = distinct tags" % (len(tags), len(MEMBERS), len(WRAPPERS)),
+             "subprocess/os.*) silent, canary constructor never called; plus every (register through X, unregister through Y) pair over SerializerBase / api / each serializer "
+             "class and instance for the opt-in converter registry, and msgpack extension codes incl. undocumented ones; distinct = distinct tags" % (len(tags), len(MEMBERS), len(WRAPPERS)),
         nontrivial=len(total.states))
     return {"violations": total.violations, "coverage": cov,
             "assumptions": ["serpent's own ast.parse 'compile' audit event is whitelisted, 'exec' is not", "no application converter is registered in the harness process"]}
 
 
 def replay(ctx, payload):
+    if payload["replay"].get("registry"):
+        st = registry_task(None)
+        return {"violations": [v for v in st.violations if v["fingerprint"] == payload["fingerprint"]]}
     st = task((payload["replay"]["tags"], False))
     return {"violations": [v for v in st.violations if v["fingerprint"] == payload["fingerprint"]], "all": sorted(v["fingerprint"] for v in st.violations)[:20]}
